@@ -150,6 +150,7 @@ type c07Logs struct {
 	mu     sync.Mutex
 	acc    []c07Obs
 	hand   []c07Obs
+	kept   []*pool.Message // the handler hijacks every message; observed again when the connection is done
 	sig    []int
 	accOrd int
 	poke   chan struct{}
@@ -243,6 +244,7 @@ func (c *c07Conn) SetWriteDeadline(time.Time) error { return nil }
 
 type c07Result struct {
 	logs   *c07Logs
+	held   []c07Obs
 	errc   int
 	reads  int
 	bytes  int
@@ -286,8 +288,10 @@ func c07Run(cache, max int, data []byte, chunks []int) c07Result {
 	cfg.ReceivedMessageQueueSize = 4
 	cfg.Handler = func(_ *responsewriter.ResponseWriter[*tcpclient.Conn], r *pool.Message) {
 		o := obsOf(r)
+		r.Hijack()
 		logs.mu.Lock()
 		logs.hand = append(logs.hand, o)
+		logs.kept = append(logs.kept, r)
 		logs.mu.Unlock()
 		select {
 		case logs.poke <- struct{}{}:
@@ -338,6 +342,12 @@ func c07Run(cache, max int, data []byte, chunks []int) c07Result {
 	sc.mu.Lock()
 	res.reads, res.bytes, res.badReq = sc.reads, sc.bytes, sc.badReq
 	sc.mu.Unlock()
+	// the messages the handler kept, as they read now that everything else went through the connection
+	logs.mu.Lock()
+	for _, r := range logs.kept {
+		res.held = append(res.held, obsOf(r))
+	}
+	logs.mu.Unlock()
 	return res
 }
 
@@ -511,6 +521,9 @@ func c07Emit(e *Emitter, c c07Case, hist ...string) error {
 	h := append([]string{fmt.Sprintf("err%d", res.errc), fmt.Sprintf("cache%d", c.cache), fmt.Sprintf("max%d", c.max),
 		fmt.Sprintf("delivered%d", minInt(len(l.acc), 6))}, hist...)
 	e.AddW(coq, c.desc(), nt, w, h...)
+	if len(l.hand) > 0 {
+		e.AddW(fmt.Sprintf("Held %s %s", ol(l.hand), ol(res.held)), c.desc(), len(l.hand) >= 2, 1+len(l.hand)/50, "kind:held", fmt.Sprintf("held%d", minInt(len(l.hand), 6)))
+	}
 	return nil
 }
 
